@@ -1023,3 +1023,35 @@ contract(
     },
     runtime=Runtime(_fbb_cases, lambda d: {"self": rtlib.outline_compiler(d, "ttf")}, call=lambda fn, a: fn(a["self"])),
 )
+
+
+# ---- the cached property `glyphBoundingBoxes` (TrueType flavour): computed once by makeGlyphsBoundingBoxes, then returned from the cache
+CLASSES["OutlineCompilerG"].fields["_glyphBoundingBoxes"] = Opt(Dict(STR, Opt(lib.BBOX)))
+
+
+def _gbb_clauses(d):
+    out = {
+        "one-entry-per-glyph": f"all(g in {d} for g in {_CG}) and all(g in {_CG} for g in {d})",
+        "none-iff-all-zero": f"all(iff({d}[g] is None, {_CG}[g].xMin == 0 and {_CG}[g].yMin == 0 and {_CG}[g].xMax == 0 and {_CG}[g].yMax == 0) for g in {_CG})",
+    }
+    for sd in _SIDES:
+        out[f"box-{sd}"] = f"all(implies({d}[g] is not None, {d}[g].{sd} == {_CG}[g].{sd}) for g in {_CG})"
+    return out
+
+
+_GBB_REQ = CONTRACTS["ufo2ft.outlineCompiler:OutlineTTFCompiler.makeGlyphsBoundingBoxes"].requires
+contract(
+    "ufo2ft.outlineCompiler:BaseOutlineCompiler.glyphBoundingBoxes",
+    props=["C04"],
+    params={"self": Ref("OutlineCompilerG")},
+    returns=Opt(Dict(STR, Opt(lib.BBOX))),
+    # a cached map is one this getter stored (the only writer besides __init__'s None), for the records as they are now
+    requires=list(_GBB_REQ) + ["self._glyphBoundingBoxes is None or (" + " and ".join(_gbb_clauses("self._glyphBoundingBoxes").values()) + ")"],
+    modifies=["self._glyphBoundingBoxes"] + list(_recalcBounds.modifies),
+    ensures={"a-map": "result is not None", **_gbb_clauses("result"), "cached": "self._glyphBoundingBoxes == result"},
+    canaries={"all-empty": f"all(result[g] is None for g in {_CG})"},
+    merge_branches=False,
+    runtime=Runtime(lambda rng, n: [dict(d, cached=bool(k % 3 == 0)) for k, d in enumerate(_fbb_cases(rng, n))],
+                    lambda d: {"self": (lambda c: (c.glyphBoundingBoxes if d.get("cached") else None, c)[1])(rtlib.outline_compiler(d, "ttf"))},
+                    call=lambda fn, a: fn.fget(a["self"])),
+)
